@@ -62,6 +62,8 @@ type WorldSpec struct {
 	NicStallFor   string `json:"nic_stall_for,omitempty"`
 	NicErrEvery   int    `json:"nic_err_every,omitempty"`
 	OutStallEvery int    `json:"stdout_stall_every,omitempty"`
+	ErrStallEvery int    `json:"stderr_stall_every,omitempty"`
+	ErrStallFor   string `json:"stderr_stall_for,omitempty"`
 	OutStallFor   string `json:"stdout_stall_for,omitempty"`
 	OutErrEvery   int    `json:"stdout_error_every,omitempty"`
 	CloseWakes    bool   `json:"close_wakes_reader"`
@@ -161,6 +163,7 @@ func runCmd(t *testing.T, c simrt.Chooser, w *WorldSpec, trace bool) *CmdResult 
 			iow.StdinTTY = true
 		}
 		iow.StallEvery, iow.StallFor = w.OutStallEvery, parseDur(w.OutStallFor)
+		iow.ErrStallEvery, iow.ErrStallFor = w.ErrStallEvery, parseDur(w.ErrStallFor)
 		iow.ErrEvery = w.OutErrEvery
 		host = simhost.Install(r)
 		for _, is := range w.Ifs {
